@@ -103,6 +103,22 @@ def work(item):
             continue
         used += 1
         n += _check_number(res, name, m, v, spanf, transp, optsets if used <= 200 else ({},))
+    # the documented presentations (prefixes, separators, other notations) of valid numbers: a substituted letter or digit
+    # anywhere in what was written must be rejected as well (only where the check covers the whole number)
+    spelled = 0
+    for s_, v0 in seedmod.seeds(name, 12 if tier != 'thorough' else None):
+        if s_ == v0 or not isinstance(s_, str) or (guard and not guard(v0)):
+            continue
+        if list(spanf(v0)) != list(range(len(v0))):
+            continue
+        try:
+            if m.validate(s_) != v0:
+                continue
+        except Exception:
+            continue
+        spelled += 1
+        n += _check_number(res, name, m, s_, lambda x: [i for i, ch in enumerate(x) if ch.isalnum() and ch.isascii()], False, ({},))
+    res['extra']['documented_presentations'] = {name: spelled} if spelled else {}
     # options that change which numbers are valid (other alphabet / table): the numbers valid under that option
     for o in optsets:
         if o and list(o)[0] in ('table', 'alphabet'):
